@@ -146,6 +146,14 @@ def w_three_pi():
         E("sink", j=1, mdot=0.4), E("sink", j=2, mdot=0.7), E("sink", j=3, mdot=0.2)]}
 
 
+def w_pump_standby():
+    """pumps of different types, one of them out of service (row order decides which curve meets which pump if the
+    type lookup is done by position among the active pumps)"""
+    return {"name": "w_pump_standby", "fluid": "water", "nj": 4, "elems": [
+        E("ext_grid", j=0), E("pump", f=0, to=1, std_type="P1", in_service=False), E("pump", f=0, to=1, std_type="P2"),
+        E("pump", f=2, to=3, std_type="P3"), E("pipe", f=1, to=2), E("sink", j=3), E("sink", j=2)]}
+
+
 def core_specs():
     return [f() for f in CORE]
 
